@@ -1,8 +1,9 @@
 #!/bin/bash
 # run_seeded.sh [seed-id ...]: for each seeded change: apply to /repo, run the property's quick check, expect a
-# VIOLATION, undo.  Prints one line per seed and writes seeded/RESULTS.md.
+# VIOLATION, undo.  Prints one line per seed; a run over ALL seeds (no arguments) rewrites seeded/RESULTS.md.
 cd /verif
-ids="$@"; [ -z "$ids" ] && ids=$(ls seeded | grep -v RESULTS)
+ids="$@"; all=0; [ -z "$ids" ] && { ids=$(ls seeded | grep -v RESULTS); all=1; }
+tmp=$(mktemp /verif/run/seeded.XXXXXX)
 for id in $ids; do
   d=/verif/seeded/$id
   [ -f $d/patch.diff ] || continue
@@ -15,4 +16,22 @@ for id in $ids; do
   nf=$(echo "$out" | grep -c 'no-failing-input-found')
   res=MISSED; [ $rc -ne 0 ] && [ $v -gt 0 ] && res=DETECTED
   echo "$id $prop $res violations=$v no-failing-input-found=$nf"
-done | tee /tmp/seeded_results.txt
+done | tee $tmp
+if [ $all -eq 1 ]; then
+python3 - $tmp <<'PY'
+import sys,json
+rows=[l.split() for l in open(sys.argv[1]) if len(l.split())>=3]
+out=["# Seeded changes: last full run of tools/run_seeded.sh (each applied to /repo, quick check, reverted)","",
+     "| seed | property | origin | result | concrete failing input |","|---|---|---|---|---|"]
+det=0
+for p in rows:
+    origin='independent sub-agent' if 'agent' in p[0] else 'reverse of a repair'
+    if p[2]=='DETECTED': det+=1
+    v=int(p[3].split('=')[1]) if len(p)>3 else 0; nf=int(p[4].split('=')[1]) if len(p)>4 else 0
+    out.append("| %s | %s | %s | %s | %s |"%(p[0],p[1],origin,p[2],'no (broken obligation / correspondence only)' if nf>=v and v>0 else ('yes' if v>0 else '-')))
+out+=["","%d seeds, %d detected."%(len(rows),det)]
+open('/verif/seeded/RESULTS.md','w').write("\n".join(out)+"\n")
+print(out[-1])
+PY
+fi
+rm -f $tmp
